@@ -236,6 +236,7 @@ harness!(dr_clear_drop__s8_4a, dr_clear_drop, S8_4A);
 harness!(dr_clear_drop__s8_8g4, dr_clear_drop, S8_8G4);
 harness!(dr_clear_drop__s8_e, dr_clear_drop, S8_E);
 harness!(dr_clear_drop__u8_3t, dr_clear_drop, U8_3T);
+harness!(dr_clear_drop__s8m0_4a, dr_clear_drop, S8M0_4A);
 
 fn dr_retain(sh: Shape) {
     let (mut m, lg) = start(sh);
